@@ -545,6 +545,8 @@ def dict_arg(expr: ast.AST, fn: Optional[ast.AST], depth: int = 0):
         return (norm(expr), "same", [])
     if isinstance(expr, ast.Dict) and len(expr.keys) == 1 and expr.keys[0] is None:
         return dict_arg(expr.values[0], fn, depth + 1)
+    if isinstance(expr, (ast.Attribute, ast.Subscript)):
+        return (norm(expr), "same", [])  # an attribute / entry holding the dictionary: its text is the source
     return None
 
 
